@@ -7,18 +7,21 @@ Models of the two remedies that sit on `MemoryCache` (core Lean only):
 
 Both are parametric in the string type `σ` (the driver instantiates `σ := String`; witnesses use `Nat`).
 What the Go code derives from strings is an INPUT of an operation here and is computed by the driver with
-the string functions at the end of this file (`selectParams`, `joinParams`, `calcSize`, `parseDecNs`):
-  * `sel`     – the selected path parameters, in configuration order, empty values dropped;
-  * `joined`  – the string that the code hashes (SHA-256 is modelled as injective, so the pre-image is the key);
+the string functions at the end of this file (`selectParams`, `calcSize`, `parseDecNs`):
+  * `sel`     – the selected path parameters, in configuration order, empty values dropped.  The code hashes
+                `strings.Join(["", …, strconv.Quote(name)+":"+strconv.Quote(value), …], ".")`; Go-quoted strings are
+                self-delimiting, so this string determines `sel` and vice versa; SHA-256 is modelled as injective:
+                the model keys on `sel` itself;
   * `bodyLen`, `sz` – `len(body)` and `calculateSize(key, value)` in bytes;
   * `Resp.raNs` – the configured Retry-After header parsed as a decimal number of seconds, in ns.
 
 Caching  OnResponse: `len(body) > MaxRecordSizeBytes` → nothing; `Has(key)` → nothing; `WithMaxCacheSize(...)`;
-         `Set(key, resp, TTLSeconds)` (error only logged).            key = (method, URL, hash(joined)).
+         `Set(key, resp, TTLSeconds)` (error only logged).            key = (method, URL, hash(quoted sel)).
          OnRequest: `Get(key)`; hit → early response with the stored status/body/headers.
 Throttle OnResponse: status ∉ RelevantStatuses → nothing; `Has(key)` → nothing; Retry-After missing /
-         unparsable / type undefined → nothing; TTL = value (relative) or value − `clock.Now().Unix()`
-         (absolute: WHOLE seconds of now);  `Set(key, resp{CreationTime: now}, TTL)`.   key = (method, URL).
+         unparsable / type undefined → nothing; TTL = value (relative) or
+         `value − float64(now.Unix()) − float64(now.Nanosecond())/1e9` (absolute, float64 seconds; `AbsTtl` below);
+         `Set(key, resp{CreationTime: now}, TTL)`.   key = (method, URL).
          OnRequest: `Get(key)`; hit → (relative only) lapsed := now − CreationTime; `lapsed ≥ value` → NoOp,
          else header := value − lapsed; early response.
 -/
@@ -40,9 +43,9 @@ structure Stored (σ : Type) where
 deriving DecidableEq, Repr
 
 structure CKey (σ : Type) where
-  m      : σ
-  u      : σ
-  joined : σ
+  m   : σ
+  u   : σ
+  sel : List (σ × σ)
 deriving DecidableEq, Repr
 
 /-- Retry-After of a replayed response: the stored header as is, or a recomputed number (ns). -/
@@ -53,8 +56,8 @@ deriving DecidableEq, Repr
 
 /-- Operations of a plugin-level history (both remedies). -/
 inductive POp (σ : Type) where
-  | resp (m u : σ) (sel : List (σ × σ)) (joined : σ) (r : Resp σ) (bodyLen sz : Nat)
-  | req (m u : σ) (sel : List (σ × σ)) (joined : σ)
+  | resp (m u : σ) (sel : List (σ × σ)) (r : Resp σ) (bodyLen sz : Nat)
+  | req (m u : σ) (sel : List (σ × σ))
   | fire (i : Nat)
   | skip (d : Nat)
   | adv (d : Nat)
@@ -89,13 +92,13 @@ deriving Repr
 abbrev CCache (σ : Type) := Cache (CKey σ) (Stored σ)
 
 def cstep (cfg : CCfg) (c : CCache σ) : POp σ → CCache σ × POut σ
-  | .resp m u _ j r bodyLen sz =>
+  | .resp m u sel r bodyLen sz =>
     if bodyLen > cfg.maxRec then (c, .noop)
-    else if has c ⟨m, u, j⟩ then (c, .noop)
+    else if has c ⟨m, u, sel⟩ then (c, .noop)
     else
-      ((set { c with sizeOn := true, max := cfg.maxBytes } ⟨m, u, j⟩ ⟨r, c.now⟩ cfg.ttl sz).1, .noop)
-  | .req m u _ j =>
-    match get c ⟨m, u, j⟩ with
+      ((set { c with sizeOn := true, max := cfg.maxBytes } ⟨m, u, sel⟩ ⟨r, c.now⟩ cfg.ttl sz).1, .noop)
+  | .req m u sel =>
+    match get c ⟨m, u, sel⟩ with
     | none => (c, .noop)
     | some s => (c, .early s.resp.status s.resp.body s.resp.tag (.raw s.resp.ra))
   | .fire i => ((fire c i).1, .fired (fire c i).2)
@@ -124,22 +127,46 @@ abbrev TCache (σ : Type) := Cache (σ × σ) (Stored σ)
 
 def nsPerSec : Int := 1000000000
 
+/-- TTL (ns) that `Set` derives for an absolute Retry-After `raNs` seen at instant `now`:
+    `time.Duration(1e9 * (value − float64(now.Unix()) − float64(now.Nanosecond())/1e9))`.  The computation is in
+    float64; the model takes it as a parameter (the driver uses `absTtlFloat`), theorems quantify over every
+    function that never exceeds the exact difference unless it is non-positive (`AbsTtlOk`). -/
+abbrev AbsTtl := Int → Int → Int
+
+def AbsTtlOk (f : AbsTtl) : Prop := ∀ raNs now, f raNs now ≤ raNs - now ∨ f raNs now ≤ 0
+
+/-- exact arithmetic instance -/
+def absTtlExact : AbsTtl := fun raNs now => raNs - now
+
+/-- The Go float64 operations repeated with Lean's `Float` (IEEE binary64; opaque to the kernel).
+    `value` = whole seconds + fraction (exact for the dyadic fractions the generators use). -/
+def absTtlFloat : AbsTtl := fun raNs now =>
+  let value : Float := Float.ofInt (raNs / nsPerSec) + Float.ofInt (raNs % nsPerSec) / 1e9
+  let ttl : Float := value - Float.ofInt (now / nsPerSec) - Float.ofInt (now % nsPerSec) / 1e9
+  (1e9 * ttl).toInt64.toInt
+
+-- build-time TESTS (compiled evaluation, not kernel theorems)
+#guard absTtlFloat 1700000001000000000 1700000000500000000 == 500000000
+#guard absTtlFloat 1700000001000000000 1700000000000000001 == 999999999
+#guard absTtlFloat 1700000001500000000 1700000000249999999 ≤ 1250000001
+#guard absTtlFloat 1700000000000000000 1700000000000000001 == 0 || absTtlFloat 1700000000000000000 1700000000000000001 == -1
+
 /-- `normalizeRetryAfter` in ns. -/
-def ttlOf (cfg : TCfg) (now : Int) (raNs : Int) : Option Int :=
+def ttlOf (absTtl : AbsTtl) (cfg : TCfg) (now : Int) (raNs : Int) : Option Int :=
   match cfg.type with
   | .rel => some raNs
-  | .abs => some (raNs - (now / nsPerSec) * nsPerSec)      -- `clock.Now().Unix()`: whole seconds
+  | .abs => some (absTtl raNs now)
   | .undef => none
 
-def tstep (cfg : TCfg) (c : TCache σ) : POp σ → TCache σ × POut σ
-  | .resp m u _ _ r _ _ =>
+def tstep (absTtl : AbsTtl) (cfg : TCfg) (c : TCache σ) : POp σ → TCache σ × POut σ
+  | .resp m u _ r _ _ =>
     if !cfg.statuses.contains r.status then (c, .noop)
     else if has c (m, u) then (c, .noop)
     else
-      match r.raNs.bind (ttlOf cfg c.now) with
+      match r.raNs.bind (ttlOf absTtl cfg c.now) with
       | none => (c, .noop)
       | some ttl => ((set c (m, u) ⟨r, c.now⟩ ttl 0).1, .noop)
-  | .req m u _ _ =>
+  | .req m u _ =>
     match get c (m, u) with
     | none => (c, .noop)
     | some s =>
@@ -156,9 +183,10 @@ def tstep (cfg : TCfg) (c : TCache σ) : POp σ → TCache σ × POut σ
   | .adv d => ((adv c d).1, .advd (adv c d).2)
   | .probe => (c, .probed c.tracked (heldSize c.entries) c.entries.length c.pending.length)
 
-def trun (cfg : TCfg) (c : TCache σ) : List (POp σ) → List (PRec σ)
+def trun (absTtl : AbsTtl) (cfg : TCfg) (c : TCache σ) : List (POp σ) → List (PRec σ)
   | [] => []
-  | op :: ops => { t := c.now, op := op, out := (tstep cfg c op).2 } :: trun cfg (tstep cfg c op).1 ops
+  | op :: ops =>
+    { t := c.now, op := op, out := (tstep absTtl cfg c op).2 } :: trun absTtl cfg (tstep absTtl cfg c op).1 ops
 
 end
 
@@ -177,10 +205,6 @@ def selectParams (paths : List (Bool × String)) (pp : List (String × String)) 
       | some v => if v == "" then none else some (name, v)
       | none => none
     else none
-
-/-- `values := make([]string, len(payloadPaths))` (that many EMPTY strings) `; append "name:value"…; Join(".")`. -/
-def joinParams (paths : List (Bool × String)) (pp : List (String × String)) : String :=
-  ".".intercalate (List.replicate paths.length "" ++ (selectParams paths pp).map fun (n, v) => n ++ ":" ++ v)
 
 /-- `calculateSize` in bytes (the hash is 64 hex characters; +4 status, +8 creation time). -/
 def calcSize (m u id body : String) (hdrs : List (String × String)) : Nat :=
@@ -218,7 +242,5 @@ def parseDecNs (s : String) : Option Int :=
 #guard parseDecNs "." == none
 #guard parseDecNs "1s" == none
 #guard parseDecNs "" == none
-#guard joinParams [(true, "a"), (true, "b")] [("a", "x.b:y")] == "..a:x.b:y"
-#guard joinParams [(true, "a"), (true, "b")] [("a", "x"), ("b", "y")] == "..a:x.b:y"
 
 end LunarVerif.C12
